@@ -414,7 +414,12 @@ def _flag_run(S, entry_states, flag, slot, pol, ctor=False):
     return exits, handoffs, viol
 
 
-@rule('R-UAC-REFPARAM', ['C02', 'C13', 'C05'], floor=15)
+def _paths(a):
+    from ..facts import expr_paths
+    return expr_paths(a)
+
+
+@rule('R-UAC-REFPARAM', ['C02', 'C13', 'C05', 'C18'], floor=15)
 def uac_refparam(run, F):
     """a completion handler that destroys its own host slot (the child operation that is calling it) does not use its reference parameters afterwards: values and errors passed by reference may live inside the operation state that was just destroyed, so they must be taken by value or consumed before the destruct"""
     from ..facts import accesses
@@ -432,13 +437,34 @@ def uac_refparam(run, F):
             except TooBig: continue
             dnodes = [n for n, e in enumerate(S.ev) if e.get('k') == 'call' and e['callee'].get('name') in DES and target_member(e) in slots]
             run.inst(site(h), 'reference parameters %s not used after destroying own slot %s' % (sorted(refparams), sorted(slots)), nontrivial=bool(refparams and dnodes), key=(x, h['name'], len(h.get('params', []))))
-            if not refparams or not dnodes: continue
+            if not dnodes: continue
+            # helper lambdas called directly with the handler's reference parameters: their reference parameters alias them
+            lam_alias = {}
+            for n, e in enumerate(S.ev):
+                if e.get('k') != 'call' or e['callee'].get('kind') not in ('expr', 'localvar'): continue
+                for m, lab in S.succ.get(n, []):
+                    if lab != 'call' or not S.fn[m].get('lambda'): continue
+                    L = S.fn[m]; ps = L.get('params', [])
+                    for i, a in enumerate(e.get('args', [])):
+                        heads = {p.split('.')[0] for p in _paths(a)}
+                        if heads & refparams:
+                            # a pack argument binds to the (single) pack parameter
+                            cand = ps[min(i, len(ps) - 1)] if ps else None
+                            if cand and cand['name'] and '&' in cand['type']: lam_alias.setdefault(id(L), set()).add(cand['name'])
+            if not refparams: continue
             for d in dnodes:
                 after = S.reach([m for m, lab in S.succ.get(d, []) if lab != 'exc'])
                 for n in sorted(after):
-                    if S.fn[n] is not h and not S.fn[n].get('lambda'): continue      # parameter names are only meaningful in the handler and its lambdas
+                    fn_n = S.fn[n]
+                    if fn_n is not h and not fn_n.get('lambda'): continue      # parameter names are only meaningful in the handler and its lambdas
                     e = S.ev[n]
-                    used = [p for p, rw in accesses(e) if p.split('.')[0] in refparams]
+                    names = set(refparams)
+                    if fn_n.get('lambda'):
+                        names -= {p['name'] for p in fn_n.get('params', [])}      # shadowed by the lambda's own parameters
+                    if fn_n.get('lambda') and id(fn_n) in lam_alias:
+                        # reference parameters of a helper lambda that were bound to the handler's own reference parameters
+                        names |= lam_alias[id(fn_n)]
+                    used = [p for p, rw in accesses(e) if p.split('.')[0] in names]
                     if used:
                         run.violation(h['qname'], 'refparam-after-destruct:' + used[0].split('.')[0], S.where(n),
                                       'parameter `%s` is taken by reference and used after this handler destroyed %s at %s; if the sender passed an object stored in its own operation state (as just/just_error/single do) the reference now dangles — take it by value or consume it before the destruct' % (
